@@ -236,6 +236,7 @@ type syWorld struct {
 	cached     *apps.StatefulSet
 	cpods      []*v1.Pod
 	gone       bool // the set no longer exists in the API: a status write answers NotFound
+	setIdx     cache.Indexer
 	// graceful: a pod delete only stamps a deletion timestamp (the world engine removes the pod at its next settle)
 	graceful bool
 }
@@ -291,7 +292,7 @@ func actionKey(a k8stesting.Action) string {
 func errOfKind(kind string, a k8stesting.Action, key string) error {
 	gr := schema.GroupResource{Group: a.GetResource().Group, Resource: a.GetResource().Resource}
 	switch kind {
-	case "conflict":
+	case "conflict", "conflictgone":
 		return apierrors.NewConflict(gr, key, fmt.Errorf("injected"))
 	case "notfound":
 		return apierrors.NewNotFound(gr, key)
@@ -332,6 +333,13 @@ func (w *syWorld) react(a k8stesting.Action) (bool, runtime.Object, error) {
 	if bad {
 		if kind == "crash" {
 			panic(syCrash{key}) // the process dies right before this call reaches the API
+		}
+		if kind == "conflictgone" && w.setIdx != nil {
+			// the write is refused with a conflict and, by the time the controller looks, the set has left the informer cache
+			// (deleted or re-created while it was being reconciled)
+			for _, o := range w.setIdx.List() {
+				_ = w.setIdx.Delete(o)
+			}
 		}
 		return true, nil, errOfKind(kind, a, key)
 	}
@@ -491,7 +499,7 @@ func buildSyWorld(c *syCase) *syWorld {
 	var kubeObjs []runtime.Object
 	for _, r := range c.store {
 		rev := &kubeapps.ControllerRevision{
-			ObjectMeta: metav1.ObjectMeta{Name: r.name, Namespace: rcNS, UID: types.UID("rev-" + r.name), Labels: map[string]string{},
+			ObjectMeta: metav1.ObjectMeta{Name: r.name, Namespace: rcNS, UID: types.UID("rev-" + r.name), Labels: map[string]string{}, Annotations: staleRevAnnotations(r.name),
 				CreationTimestamp: metav1.NewTime(syTime0.Add(time.Duration(r.ctim) * time.Hour)), OwnerReferences: syOwnerRefs(r.owner)},
 			Data:     runtime.RawExtension{Raw: syPatchOf(c, r.data)},
 			Revision: int64(r.number),
@@ -554,6 +562,7 @@ func buildSyWorld(c *syCase) *syWorld {
 	w.pc.PrependReactor("*", "*", w.react)
 	setIdx := cache.NewIndexer(cache.MetaNamespaceKeyFunc, cache.Indexers{cache.NamespaceIndex: cache.MetaNamespaceIndexFunc})
 	_ = setIdx.Add(set)
+	w.setIdx = setIdx
 	pvcIdx := cache.NewIndexer(cache.MetaNamespaceKeyFunc, cache.Indexers{cache.NamespaceIndex: cache.MetaNamespaceIndexFunc})
 	for _, o := range c.pvcCache {
 		_ = pvcIdx.Add(syClaim(o))
@@ -905,6 +914,9 @@ func genSync(rng *rand.Rand, n int, emit func(string)) {
 						continue
 					}
 					f := syFault{key: log[j], occ: occ, kind: pick(rng, kinds...)}
+					if f.key == "updatestatus" && f.kind == "conflict" && rng.Intn(2) == 0 {
+						f.kind = "conflictgone"
+					}
 					c.faults = append(c.faults, f)
 					if f.kind == "conflict" && rng.Intn(2) == 0 { // a burst of conflicts on one call
 						for b := 1; b <= 1+rng.Intn(4); b++ {
